@@ -818,6 +818,9 @@ func (r *Run) doCtl(sc *plan.Script, op *plan.Op, rec *plan.Rec) {
 		if err != nil {
 			rec.Err = "notstable:" + err.Error()
 		}
+		if r.C.SigInvariant != "" {
+			rec.Info = "invariant:" + r.C.SigInvariant
+		}
 	case "ctl.copies":
 		dmn := op.DM
 		if dmn == "" {
